@@ -190,6 +190,37 @@ func isIntType(t types.Type) bool {
 
 // durationMinutes: v is a klog.Duration built by NewDuration(h, m) / NewDurationWithFormat:
 // its value in minutes as a polynomial 60h+m.
+// durationMinutesArith is durationMinutes that also reads duration arithmetic.
+func (p *Prog) durationMinutesArith(v ssa.Value) (*Poly, bool) {
+	c, idx := callOf(v)
+	if c == nil || idx != 0 {
+		return nil, false
+	}
+	// duration arithmetic: a.Minus(b) / a.Plus(b) have a-b / a+b minutes (P02-arith); an operand
+	// that is not a constructor call counts as the leaf <operand>.InMinutes()
+	if n, recv, args, mc := methodCallOf(c); mc != nil && (n == "Minus" || n == "Plus") && len(args) == 1 && recv != nil && typeNameOf(recv.Type()) == "Duration" {
+		side := func(x ssa.Value) *Poly {
+			if sub, ok := p.durationMinutesArith(x); ok {
+				return sub
+			}
+			leaf := newPoly()
+			k := "call:InMinutes(" + leafKey(x) + ")"
+			leaf.Terms[k] = 1
+			leaf.leafV[k] = &minutesOf{of: x}
+			return leaf
+		}
+		res := newPoly()
+		res.addScaled(side(recv), 1)
+		if n == "Minus" {
+			res.addScaled(side(args[0]), -1)
+		} else {
+			res.addScaled(side(args[0]), 1)
+		}
+		return res, true
+	}
+	return p.durationMinutes(v)
+}
+
 func (p *Prog) durationMinutes(v ssa.Value) (*Poly, bool) {
 	c, idx := callOf(v)
 	if c == nil || idx != 0 {
@@ -554,3 +585,13 @@ func nilSafeArgument(ref ssa.Instruction, v ssa.Value, depth int) bool {
 	}
 	return seen
 }
+
+// minutesOf stands for x.InMinutes() of a duration value x that the program never converts to
+// minutes itself (it hands the duration on to Minus / Plus): a synthetic leaf of a polynomial.
+type minutesOf struct {
+	ssa.Value
+	of ssa.Value
+}
+
+func (m *minutesOf) Name() string   { return "minutes(" + m.of.Name() + ")" }
+func (m *minutesOf) String() string { return m.Name() }
